@@ -262,9 +262,20 @@ void h_activate(void)
 #endif
     int mpos = me - root; if (mpos < 0) mpos += np;              /* my position (0 = I am the root) */
     for (int k = 0; k < C13_NOUT; k++) {
-        /* a destination set is a non-empty set of REMOTE processes (parsec_release_dep_fct records dst != src only) */
-        V_ASSUME((vin.d[k] & ~all) == 0);
-        if ((mask >> k) & 1u) V_ASSUME(vin.d[k] != 0);
+        /* Position 0 (the root itself) in a destination set:
+         *  - on the ROOT it is never set: parsec_release_dep_fct (parsec.c) records a destination only when
+         *    dst_rank != src_rank -- precondition taken from there;
+         *  - on a FORWARDER the sets are rebuilt by parsec_gather_collective_pattern, which is called for every
+         *    successor, also for those living on the root: bit 0 is set exactly when the root consumes output k
+         *    (symbolic here).
+         * The property's trees are over the consuming ranks OTHER than the root, in the same order on every rank:
+         * the spec side (c13_spec.h: first / idx / sends range over positions >= 1 only) never looks at bit 0, so the
+         * real code has to skip the root wherever the bit is present in order to agree with it.
+         * Every output of the mask has at least one REMOTE consumer (otherwise the root would not have put it in
+         * its outgoing mask). */
+        V_ASSUME((vin.d[k] & ~(all | 1u)) == 0);
+        if (mpos == 0) V_ASSUME((vin.d[k] & 1u) == 0);
+        if ((mask >> k) & 1u) V_ASSUME((vin.d[k] & all) != 0);
     }
     int topo = vdtd ? 0 : vtopo;                               /* DTD taskpools always use the star */
 
